@@ -472,3 +472,10 @@ impl<'a> VacantEntry<'a> {
         Key { index, stream_id }
     }
 }
+
+#[cfg(feature = "verif")]
+impl Store {
+    pub(super) fn verif_stats(&self) -> (usize, usize) {
+        (self.slab.len(), self.ids.len())
+    }
+}
